@@ -50,9 +50,32 @@ fn det3f(m: [[f64; 3]; 3]) -> f64 {
 pub fn check_exact_log(prop: &str, c: &Case, trace: &Trace, rep: &mut Report) -> u64 {
     let s = scales(c);
     let mut nchk = 0;
+    // the position -> grid map of this input, through the hook wrapper of SimulationBoundary::{cuboid, iloc}
+    let (an, wn) = c.norm_box();
+    let grid = meshless_voronoi::verif::Grid::cuboid(an, wn, c.periodic, dimn(c.dim));
+    let mut reported = false;
     for e in &trace.exact {
         nchk += 1;
         check_event(prop, c, e, s.l, rep);
+        // the five grid points handed to the predicate are the images of the five positions they stand for (generator, the
+        // three positions behind the planes of the vertex, the position behind the clipping plane)
+        if !reported {
+            for k in 0..5 {
+                let want = grid.iloc(e.fpts[k]);
+                if want != e.ipts[k] {
+                    rep.violations.push(Violation::new(
+                        prop,
+                        "exact.grid_point_is_not_the_image_of_its_position",
+                        format!("cell {}: point {k} of an exact decision is the grid point {:?}, but the position it stands for ({:?}) maps to {:?}", e.cell, e.ipts[k], e.fpts[k], want),
+                        Some(c),
+                        json!({"cell": e.cell, "tuple": e.ipts, "fpts": e.fpts.iter().map(|v| v3j(*v)).collect::<Vec<_>>(), "k": k}),
+                    ));
+                    reported = true;
+                    break;
+                }
+            }
+            rep.count("exact_grid_points_compared_with_their_positions", 5);
+        }
     }
     rep.count("exact_decisions_total", trace.exact_count);
     rep.count("exact_decisions_checked_against_oracle", nchk);
